@@ -259,29 +259,25 @@ func (tr *guardTr) assign(lhs []ast.Expr, rhs []ast.Expr, define bool) {
 	}
 }
 
-// classify the return a block ends in: "err", "true", "false", "plain" (any other return), "" (none)
-func (tr *guardTr) endReturn(b *ast.BlockStmt) string {
-	if len(b.List) == 0 {
-		return ""
+// diverts: the block always leaves the enclosing statement list (return / continue / break)
+func diverts(b *ast.BlockStmt) bool {
+	if b == nil || len(b.List) == 0 {
+		return false
 	}
-	if br, ok := b.List[len(b.List)-1].(*ast.BranchStmt); ok && br.Tok == token.CONTINUE && len(b.List) == 1 {
-		return "continue"
+	switch x := b.List[len(b.List)-1].(type) {
+	case *ast.ReturnStmt:
+		return true
+	case *ast.BranchStmt:
+		return x.Tok == token.CONTINUE || x.Tok == token.BREAK
 	}
-	rs, ok := b.List[len(b.List)-1].(*ast.ReturnStmt)
-	if !ok {
-		return ""
-	}
-	if tr.hasErr && returnsError(rs) {
-		return "err"
-	}
-	if tr.boolFunc && len(rs.Results) == 1 {
-		if id, ok := rs.Results[0].(*ast.Ident); ok && (id.Name == "true" || id.Name == "false") {
-			return id.Name
-		}
-	}
-	return "plain"
+	return false
 }
 
+// walk records, for every `return` / `continue` inside the branches of the function, the path
+// condition under which it is reached: error returns -> guards, Boolean literals -> cases, other
+// returns -> exits, `continue` -> skips. Inside a nested block the statements after an `if` whose
+// body always leaves run under the negated condition; at the top level of the function the
+// order of the lists carries that (the first condition that holds decides).
 func (tr *guardTr) walk(b *ast.BlockStmt, path string, top bool) {
 	tr.scopes = append(tr.scopes, map[string]string{})
 	defer func() { tr.scopes = tr.scopes[:len(tr.scopes)-1] }()
@@ -310,33 +306,23 @@ func (tr *guardTr) walk(b *ast.BlockStmt, path string, top bool) {
 				tr.assign(as.Lhs, as.Rhs, as.Tok == token.DEFINE)
 			}
 			c, _, errCheck := tr.cond(s.Cond)
-			kind := ""
-			if s.Else == nil {
-				kind = tr.endReturn(s.Body)
-			}
 			if errCheck {
-				if kind == "err" {
-					tr.errChk++
+				if s.Else == nil && diverts(s.Body) {
+					if rs, ok := s.Body.List[len(s.Body.List)-1].(*ast.ReturnStmt); ok && tr.hasErr && returnsError(rs) {
+						tr.errChk++
+					}
 				}
 				continue
 			}
-			switch kind {
-			case "err":
-				tr.guards = append(tr.guards, conj(path, c))
-			case "true", "false":
-				tr.cases = append(tr.cases, valueCase{conj(path, c), kind})
-			case "plain":
-				tr.exits = append(tr.exits, conj(path, c))
-			case "continue":
-				tr.skips = append(tr.skips, conj(path, c))
-			}
-			// conditions nested in the branches hold under the branch condition
 			tr.walk(s.Body, conj(path, c), false)
 			switch e := s.Else.(type) {
 			case *ast.BlockStmt:
 				tr.walk(e, conj(path, "(!"+c+")"), false)
 			case *ast.IfStmt:
 				tr.walk(&ast.BlockStmt{List: []ast.Stmt{e}}, conj(path, "(!"+c+")"), false)
+			}
+			if !top && s.Else == nil && diverts(s.Body) {
+				path = conj(path, "(!"+c+")")
 			}
 		case *ast.ForStmt:
 			tr.scopes = append(tr.scopes, map[string]string{})
@@ -361,16 +347,33 @@ func (tr *guardTr) walk(b *ast.BlockStmt, path string, top bool) {
 			tr.walk(s.Body, path, false)
 		case *ast.BlockStmt:
 			tr.walk(s, path, false)
+		case *ast.BranchStmt:
+			if s.Tok == token.CONTINUE && !top {
+				tr.skips = append(tr.skips, path)
+			}
 		case *ast.ReturnStmt:
-			if top && tr.boolFunc && len(s.Results) == 1 {
-				if c, ok, errCheck := tr.cond(s.Results[0]); ok && !errCheck {
-					tr.deflt = c
-				} else {
+			if top {
+				if tr.boolFunc && len(s.Results) == 1 {
+					c, _, _ := tr.cond(s.Results[0])
 					tr.deflt = c
 				}
+				continue
+			}
+			switch {
+			case tr.hasErr && returnsError(s):
+				tr.guards = append(tr.guards, path)
+			case tr.boolFunc && len(s.Results) == 1 && isBoolLit(s.Results[0]):
+				tr.cases = append(tr.cases, valueCase{path, s.Results[0].(*ast.Ident).Name})
+			default:
+				tr.exits = append(tr.exits, path)
 			}
 		}
 	}
+}
+
+func isBoolLit(e ast.Expr) bool {
+	id, ok := e.(*ast.Ident)
+	return ok && (id.Name == "true" || id.Name == "false")
 }
 
 func findMethod(f *ast.File, recv, name string) *ast.FuncDecl {
